@@ -14,10 +14,10 @@ pub static DEF: PropDef = PropDef {
     level: "exploration",
     rule: "cases: a generated pool of inputs (valid and invalid streams, files with and without embedded streams) and \
 generated call histories over it. (1) history independence: a sequence of ~40 calls of expand_zlib_chunks / \
-recreated_zlib_chunks / decompress_deflate_stream(verify in {false,true}) / recompress_deflate_stream (on the stream's own split or, for one stream in three, on corrections written through the analysis hook under foreign hash parameters: shift 4..6, mask up to 0xffff) / compress_zstd / decompress_zstd, each result \
+recreated_zlib_chunks / WrapperCompressZip + WrapperDecompressZip / decompress_deflate_stream(verify in {false,true}) / recompress_deflate_stream (on the stream's own split or, for one stream in three, on corrections written through the analysis hook under foreign hash parameters: shift 4..6, mask up to 0xffff) / compress_zstd / decompress_zstd, each result \
 digest compared with the first-seen result for that (function, input); input slices are passed at varying addresses modulo 8; (2) concurrency: 2..16 threads released by a \
 barrier run generated per-thread sequences over the shared (Arc) pool, every result compared with the sequential model; \
-(4) soak: three streams through recompress 70 000 times each (interleaved, plus decompress(verify=true) every 16th round) per worker process, every result equal to the first; (3) cross-process: a child process recomputes all digests of the pool (fresh address space, fresh RandomState) and must \
+(4) soak: three streams through recompress 70 000 times each (interleaved, plus decompress(verify=true) every 16th round) per worker process, every result equal to the first; after the history and after the threads a probe panic checks that the process-wide panic hook is still the caller's (no public function may change global state); (3) cross-process: a child process recomputes all digests of the pool (fresh address space, fresh RandomState) and must \
 agree. Non-trivial = a history in which an accepted input is evaluated at least twice with different predecessors or on \
 at least 2 threads; distinct = hash of (pool, history).",
     assumptions: &[
@@ -48,7 +48,7 @@ pub struct Pool {
 
 /// operation kinds: 0 decompress(verify=false) 1 decompress(verify=true) 2 recompress of a
 /// split of the stream (its own, or for one stream in three one written under foreign parameters) 3 expand 4 recreate of the file's own container 5 compress_zstd
-/// 6 decompress_zstd(compress_zstd)
+/// 6 decompress_zstd(compress_zstd) 7 WrapperCompressZip + WrapperDecompressZip (C ABI round trip)
 pub type Op = (u8, u8); // (kind, input index)
 
 fn digest_split(r: Result<Result<Split, LibErr>, Caught>) -> String {
@@ -155,6 +155,7 @@ fn run_op(pool: &Pool, der: &Derived, op: Op) -> String {
         5 => realigned(&pool.files[idx % pool.files.len()], |f| {
             digest_bytes(guard(|| preflate_rs::compress_zstd(f, 0).map_err(|e| err_info(&e))))
         }),
+        7 => cabi_roundtrip(&pool.files[idx % pool.files.len()]),
         _ => {
             let f = &pool.files[idx % pool.files.len()];
             digest_bytes(guard(|| {
@@ -165,6 +166,42 @@ fn run_op(pool: &Pool, der: &Derived, op: Op) -> String {
     }
 }
 
+/// the two extern "C" entry points, compress then decompress, with ample buffers
+fn cabi_roundtrip(f: &[u8]) -> String {
+    if f.len() > (8 << 20) {
+        return "n/a".into();
+    }
+    let cap1 = f.len() + f.len() / 2 + 65_536;
+    let mut buf1 = vec![0u8; cap1];
+    let mut n1: u64 = 0;
+    let s1 = unsafe { preflate_rs::WrapperCompressZip(f.as_ptr(), f.len() as u64, buf1.as_mut_ptr(), cap1 as u64, &mut n1) };
+    if s1 != 0 || n1 as usize > cap1 {
+        return format!("compress-status:{}", s1);
+    }
+    let cap2 = f.len() + 16;
+    let mut buf2 = vec![0u8; cap2];
+    let mut n2: u64 = 0;
+    let s2 = unsafe { preflate_rs::WrapperDecompressZip(buf1.as_ptr(), n1, buf2.as_mut_ptr(), cap2 as u64, &mut n2) };
+    if s2 != 0 || n2 as usize > cap2 {
+        return format!("Ok:{}:{:016x}:decompress-status:{}", n1, fnv64(&buf1[..n1 as usize]), s2);
+    }
+    format!("Ok:{}:{:016x}:{}:{:016x}", n1, fnv64(&buf1[..n1 as usize]), n2, fnv64(&buf2[..n2 as usize]))
+}
+
+fn hook_check(after: &str) -> Result<(), Failure> {
+    if panic_hook_intact() {
+        return Ok(());
+    }
+    // put ours back so that later cases are judged normally
+    install_panic_hook();
+    Err(Failure::new(
+        "C14",
+        "global-state",
+        "panic-hook-replaced",
+        format!("after {} the process-wide panic hook is no longer the one the caller had installed: a public function changed global state", after),
+    ))
+}
+
 fn all_ops(pool: &Pool) -> Vec<Op> {
     let mut v = vec![];
     for i in 0..pool.streams.len() {
@@ -173,7 +210,7 @@ fn all_ops(pool: &Pool) -> Vec<Op> {
         }
     }
     for i in 0..pool.files.len() {
-        for k in 3..7u8 {
+        for k in 3..8u8 {
             v.push((k, i as u8));
         }
     }
@@ -221,7 +258,7 @@ fn plan_doc(pool: &Pool, plan: &Plan) -> Value {
 }
 
 fn mismatch(kind: &str, op: Op, want: &str, got: &str, extra: &str) -> Failure {
-    let fname = ["decompress(verify=false)", "decompress(verify=true)", "recompress", "expand", "recreate", "compress_zstd", "zstd-roundtrip"][op.0.min(6) as usize];
+    let fname = ["decompress(verify=false)", "decompress(verify=true)", "recompress", "expand", "recreate", "compress_zstd", "zstd-roundtrip", "c-abi-roundtrip"][op.0.min(7) as usize];
     Failure::new(
         "C14",
         kind,
@@ -262,7 +299,7 @@ pub fn check(pool: &Pool, plan: &Plan, ctx: &mut Ctx) -> Result<(), Failure> {
         if op.0 < 3 {
             (op.0, (op.1 as usize % pool.streams.len()) as u8)
         } else {
-            (op.0.min(6), (op.1 as usize % pool.files.len()) as u8)
+            (op.0.min(7), (op.1 as usize % pool.files.len()) as u8)
         }
     };
     let accepted = |op: Op| model.get(&op).map(|d| d.starts_with("Ok")).unwrap_or(false);
@@ -294,6 +331,7 @@ pub fn check(pool: &Pool, plan: &Plan, ctx: &mut Ctx) -> Result<(), Failure> {
         prev = Some(op);
     }
     ctx.class_n("history-calls", plan.history.len() as u64);
+    hook_check("a sequential call history")?;
     // (2) concurrency
     if !plan.threads.is_empty() && t_model.elapsed().as_secs() <= 20 {
         let pool_a = Arc::new(pool.clone());
@@ -338,6 +376,7 @@ pub fn check(pool: &Pool, plan: &Plan, ctx: &mut Ctx) -> Result<(), Failure> {
                 }
             }
         }
+        hook_check(&format!("concurrent calls on {} threads", plan.threads.len()))?;
         ctx.class(&format!("threads:{}", plan.threads.len()));
         ctx.class_n("concurrent-calls", plan.threads.iter().map(|t| t.len() as u64).sum());
     }
@@ -388,7 +427,7 @@ pub fn check(pool: &Pool, plan: &Plan, ctx: &mut Ctx) -> Result<(), Failure> {
         ctx.nontrivial(fnv64(&key));
     }
     for (op, d) in model.iter() {
-        let fname = ["decompress0", "decompress1", "recompress", "expand", "recreate", "compress_zstd", "zstd-roundtrip"][op.0.min(6) as usize];
+        let fname = ["decompress0", "decompress1", "recompress", "expand", "recreate", "compress_zstd", "zstd-roundtrip", "c-abi-roundtrip"][op.0.min(7) as usize];
         ctx.class(&format!("model:{}:{}", fname, d.split(':').next().unwrap_or("")));
     }
     Ok(())
@@ -400,7 +439,7 @@ fn gen_ops(dna: &mut Dna, n: usize, hot: Op) -> Vec<Op> {
             if dna.chance(35) {
                 hot
             } else {
-                (dna.below(7) as u8, dna.below(8) as u8)
+                (dna.below(8) as u8, dna.below(8) as u8)
             }
         })
         .collect()
@@ -433,7 +472,7 @@ fn eval_dna(dna_bytes: &[u8], ctx: &mut Ctx) -> Result<(), (Failure, Value)> {
         ctx.class("pool:file-expanding-beyond-16MiB");
     }
     let mut pd = Dna::new(&plan_bytes);
-    let hot: Op = (pd.below(7) as u8, pd.below(4) as u8);
+    let hot: Op = (pd.below(8) as u8, pd.below(4) as u8);
     let hlen = pd.range(10, 40);
     let history = gen_ops(&mut pd, hlen, hot);
     let nthreads = [0usize, 2, 2, 3, 4, 8, 16][pd.below(7)];
